@@ -151,3 +151,10 @@ def describe(cases, obs):
         cfgs[k] = cfgs.get(k, 0) + 1
         ctx[c['ctx']] = ctx.get(c['ctx'], 0) + 1
     return {'option_combinations': cfgs, 'contexts': ctx}
+
+
+CLAIM = {
+    'text': "Theorems (Coq): time_split's slot-level machine refines its per-key machine; the windows are `sessions` defined by the property's decision rules (expired iff ts >= reference+active or ts >= previous+inactive, proved as an iff incl. gaps exactly equal to a timeout; closing item included/excluded; reference = first item or preceding closing item), each processed by a fresh inner machine in order; concat sessions = xs. Timestamps are integers in the model; datetime/timedelta runs are compared on the Python side. Oracle: the rules re-implemented in Python from the property text, inner tap.",
+    'note': 'Trusted: Coq kernel+VM; hand-written model; positive timeouts assumed; non-decreasing timestamps in generators.',
+    'technique': 'Coq proof (forward-simulation refinement of a slot-level model by per-key local machines, list-level induction) + vm_compute correspondence against /repo + model-free oracle',
+}
